@@ -35,6 +35,9 @@ pub fn replay_file(path: &str) -> i32 {
             return 3;
         }
     };
+    if v.get("kind").and_then(|k| k.as_str()) == Some("sel") {
+        return crate::sel::replay(&v);
+    }
     if v.get("kind").and_then(|k| k.as_str()) == Some("c11") {
         return crate::c11::replay(&v);
     }
@@ -611,6 +614,12 @@ pub fn run_check(property: &str, tier: &str, part: Option<&str>, worker: bool) -
             return 2;
         }
     };
+    let thorough_tier = tier == "thorough";
+    let sel_handle = if property == "C03" && part.is_none() {
+        Some(std::thread::Builder::new().stack_size(1 << 28).spawn(move || crate::sel::run_parallel(thorough_tier, if thorough_tier { 900 } else { 150 })).unwrap())
+    } else {
+        None
+    };
     let res = run_plan(&plan);
     let mut candidates: Vec<Case> = Vec::new();
     for o in &res.outs {
@@ -661,6 +670,56 @@ pub fn run_check(property: &str, tier: &str, part: Option<&str>, worker: bool) -
         "program text is enumerated, not symbolic".to_string(),
     ];
     assumptions.extend(plan.assumptions.iter().cloned());
+    // C03 (a): selector lemmas
+    let mut sel_violations = 0usize;
+    if let Some(h) = sel_handle {
+        let so = h.join().unwrap_or_default();
+        let known = report::Known::load();
+        let dir = format!("{}/replays", report::verif_root());
+        let mut known_hits: std::collections::BTreeMap<String, (usize, String)> = Default::default();
+        let mut unconfirmed = 0usize;
+        let mut classes = std::collections::BTreeSet::new();
+        for f in &so.failing {
+            if f["native"].is_null() {
+                unconfirmed += 1;
+                continue;
+            }
+            let form = f["form"].as_str().unwrap_or("").to_string();
+            let mut matched = None;
+            for e in &known.entries {
+                if e["property"].as_str() == Some("C03") && e["form_contains"].as_str().map_or(false, |s| form.contains(s)) {
+                    matched = Some(e["id"].as_str().unwrap_or("?").to_string());
+                }
+            }
+            if let Some(id) = matched {
+                known_hits.entry(id).or_insert((0, format!("selector form `{}` at {} bits: {}", form, f["width"], f["why"].as_str().unwrap_or("")))).0 += 1;
+                continue;
+            }
+            // one VIOLATION per (operator, operand kinds) class
+            let class = format!("{} {}", f["op"].as_str().unwrap_or(""), form.split(',').map(|x| x.trim().chars().filter(|c| !c.is_ascii_digit() && *c != '-').collect::<String>()).collect::<Vec<_>>().join(","));
+            if !classes.insert(class) || sel_violations >= 10 {
+                continue;
+            }
+            let path = format!("{}/C03-sel-{}.json", dir, sel_violations);
+            let _ = std::fs::create_dir_all(&dir);
+            let _ = std::fs::write(&path, serde_json::to_string_pretty(f).unwrap());
+            println!("VIOLATION property=C03 replay={}", path);
+            println!("  selector lemma: form `{}` at {} bits: {} ; {}", form, f["width"], f["why"].as_str().unwrap_or(""), f["native"].as_str().unwrap_or(""));
+            sel_violations += 1;
+        }
+        for (id, (n, what)) in &known_hits {
+            println!("KNOWN-FINDING: property=C03 {} ({} form(s) this run; id {})", what, n, id);
+        }
+        cov["selector_lemmas"] = json!({
+            "forms_checked": so.forms, "hold": so.holds, "no_selector_arm_(unimplemented!)": so.unsupported,
+            "failing": so.failing.len(), "failing_confirmed_natively_(jit_vs_bytecode_interpreter_on_the_same_bytecode)": so.failing_confirmed_natively,
+            "failing_not_confirmed": unconfirmed, "undecided": so.undecided.len(),
+            "solver_queries": so.stats.queries,
+            "rule": "operand kinds {tape cell, callee-saved register temp, caller-saved register temp, stack temp, immediate} x aliasing x immediate class {0, +-1, 127, 128, -128, -129, i32 bounds +-1, u32 bounds +-1, i64 bounds} x live mask {exact, all live}; every form at 64 bits, every third form at 8/16/32 bits in the quick tier",
+            "samples": so.failing.iter().take(3).collect::<Vec<_>>(),
+        });
+        cov["evaluations"] = json!(cov["evaluations"].as_u64().unwrap_or(0) + so.forms);
+    }
     let inconclusive_total = cov["inconclusive"].as_u64().unwrap_or(0) as usize + sum.not_reproduced.len() + sum.replay_errors.len();
     let ev = json!({
         "property_id": property,
@@ -670,7 +729,7 @@ pub fn run_check(property: &str, tier: &str, part: Option<&str>, worker: bool) -
         "coverage": cov,
         "assumptions": assumptions,
         "wall_s": t0.elapsed().as_secs_f64(),
-        "violations": sum.violations.len(),
+        "violations": sum.violations.len() + sel_violations,
     });
     if let Some(p) = part {
         // partial result for an orchestrating process
@@ -699,7 +758,7 @@ pub fn run_check(property: &str, tier: &str, part: Option<&str>, worker: bool) -
         sum.known.len(),
         res.wall_s
     );
-    if !sum.violations.is_empty() {
+    if !sum.violations.is_empty() || sel_violations > 0 {
         1
     } else if !sum.not_reproduced.is_empty() {
         2
@@ -1117,4 +1176,8 @@ fn run_c15(tier: &str) -> i32 {
     write_evidence("C15", &ev);
     println!("C15 {}: shapes={} paths={} obligations={} discharged={} undecided={} queries={} violations={} known={} inconclusive={} wall={:.1}s", tier, out.shapes, out.paths, out.obligations, out.discharged, out.undecided, out.stats.queries, violations, known_hits.len(), out.inconclusive.len(), t0.elapsed().as_secs_f64());
     if violations > 0 { 1 } else { 0 }
+}
+
+pub fn corpus_for_dev() -> Vec<String> {
+    corpus_programs("quick", false).0.into_iter().map(|(_, p)| p).collect()
 }
